@@ -439,6 +439,12 @@ class StereoCondensedReactionGraph(StereoMolGraph, CondensedReactionGraph):
                     for change, stereo in stereo_change.items()
                 }
                 enantiomer.set_atom_stereo_change(**stereo_change_inverted)
+        for bond, change_dict in self._bond_stereo_change.items():
+            for stereo_change, bond_stereo in change_dict.items():
+                if bond_stereo is not None:
+                    enantiomer._bond_stereo_change[bond][stereo_change] = (
+                        bond_stereo.invert()
+                    )
         return enantiomer
 
     def _to_rdmol(
